@@ -669,13 +669,77 @@ def job_stream(pid, ctx, n_random=None):
               "14-call public alphabet x {burst, settled} x 3 child behaviours, 60 park-then-mixed-priority-burst scripts, then seeded random scripts")
     return s
 
+def jobmt_stream(pid, ctx):
+    """C04 / C07 / C10 "concurrent senders on a multi-threaded runtime", "several concurrent senders (per-sender order must be preserved)":
+    2-4 tasks send controls to clones of one Job at the same time, real time, multi-thread runtime, simulated child. The interleaving is the
+    scheduler's, so there is no model comparison: schedule-independent oracles only."""
+    n = 1500 if ctx["thorough"] else 300
+    r = random.Random(ctx["seed"] * 977 + 5)
+    s = core.StreamResult("job-mt")
+    cases = []
+    for i in range(n):
+        behs = ",".join(r.choice(["I", "I", "S0", "S2", "S5", "E1", "E5", "E20", "F"]) for _ in range(r.randint(1, 4)))
+        ends = r.random() < 0.15
+        senders = []
+        for si in range(r.randint(2, 4)):
+            ops = []; k = 0
+            for _ in range(r.randint(2, 7)):
+                a = r.choice(["start", "start", "stop", f"gstop:15:{r.choice([0, 5, 20])}", "restart", f"grestart:15:{r.choice([0, 5, 20])}", "tryrestart", f"gtryrestart:15:{r.choice([0, 5, 20])}",
+                              "signal:10", "run", "run", "run", "towait"] + (["delete", "deletenow"] if ends else []))
+                if a == "run": a = f"run:{si}_{k}"; k += 1
+                # wait-for-end is never awaited here: with a child that ignores signals and nobody stopping it, it legitimately never resolves
+                ops.append(("n:" if a == "towait" or r.random() < 0.25 else "s:") + a)
+                if r.random() < 0.2: ops.append(f"z:{r.choice([0, 1, 2])}")
+            senders.append(";".join(ops))
+        cases.append(f"mt{ctx['seed']}_{i} {behs} {'|'.join(senders)}")
+    impl, culprits, fatal = core.run_chunks("wxjobmt", cases, 8, 600 if ctx["thorough"] else 200)
+    if fatal: s.error = fatal; return s
+    for c, why in culprits: s.oracle_failures.append((cases.index(c), c, "", f"[{pid}] no answer with concurrent senders: {why}"))
+    s.evaluations = len([c for c in cases if c in impl])
+    for i, c in enumerate(cases):
+        if c not in impl: continue
+        o = impl[c].split(" ", 1)[1]
+        m = re.match(r"(\S*) unres=(\S*) dead=(\d) task=(\S+)$", o)
+        if not m: s.oracle_failures.append((i, c, o, f"[{pid}] unparsable answer")); continue
+        ev = [e for e in m.group(1).split("|") if e]; unres = [u for u in m.group(2).split(",") if u]; dead = m.group(3) == "1"; task = m.group(4)
+        what = []
+        live = set()
+        for e in ev:
+            f = e.split(":")
+            if f[0] == "spawn":
+                if live: what.append(("C04", f"{f[1]} was spawned while {sorted(live)} had not been reaped (concurrent senders)"))
+                live.add(f[1])
+            elif f[0] == "reaped": live.discard(f[1])
+        if task == "panicked": what.append(("C07", "the job task panicked under concurrent senders"))
+        # every awaited control other than wait-for-end completes: grace periods are at most 20 ms, the limit was 3 s
+        for u in unres: what.append(("C07", f"ticket of `{u}` did not resolve within 3 s although every grace period of the script is at most 20 ms"))
+        ran = [e.split(":")[1] for e in ev if e.startswith("run:")]
+        if len(ran) != len(set(ran)): what.append(("C10", f"a run marker executed twice: {ran}"))
+        for si, sd in enumerate(c.split(" ")[2].split("|")):
+            sent = [o_.split(":")[2] for o_ in sd.split(";") if o_[:2] in ("s:", "n:") and o_.split(":")[1] == "run"]
+            mine = [x for x in ran if x.split("_")[0] == str(si)]
+            if mine != [x for x in sent if x in mine]: what.append(("C10", f"sender {si} sent its run markers as {sent}, they executed as {mine}: per-sender order not preserved"))
+            awaited = [o_.split(":")[2] for o_ in sd.split(";") if o_[:2] == "s:" and o_.split(":")[1] == "run"]
+            # an awaited marker whose ticket resolved while the job was never deleted has been executed
+            if not dead and not unres:
+                for x in awaited:
+                    if x not in ran: what.append(("C10", f"sender {si} awaited run marker {x}: its ticket resolved, the job was not deleted, yet the marker never executed"))
+        for prop, w in what:
+            if prop == pid: s.oracle_failures.append((i, c, o, f"[{prop}] {w}"))
+        s.bump(f"senders={len(c.split(' ')[2].split('|'))}"); s.bump("deleted" if dead else "alive-at-end"); s.bump(f"spawns={min(sum(1 for e in ev if e.startswith('spawn:')), 5)}")
+        if len(ran) >= 3: s.nontrivial.add(hashlib.md5((c.split(" ", 1)[1] + o).encode()).digest()[:8])
+        if i % max(1, len(cases) // 3) == 0 and len(s.samples) < 3: s.samples.append({"case": c, "impl": o[:300]})
+    s.note = ("2-4 tasks on a multi-thread runtime send controls to clones of one Job concurrently (real time, simulated child through the public spawn hook); no model comparison — "
+              "oracles only: never two un-reaped children, every awaited ticket resolves, run markers execute at most once and in each sender's own order, an awaited marker whose ticket resolved was executed")
+    return s
+
 def job_plan(pid, modules, theorems, rule_extra, partial=""):
     def streams(ctx):
         s = job_stream(pid, ctx)
         # an oracle failure is reported under the property it belongs to; others are left to that property's own check
         s.oracle_failures = [f for f in s.oracle_failures if f[3].startswith(f"[{pid}]")]
-        return [s]
-    return dict(translate=True, modules=modules + ["Wx.Job.Api", "Wx.Job.ApiThm", "Wx.Job.ShapesThm", "Wx.Job.Faults", "Wx.Job.FaultsThm"], theorems=theorems + ["Jf.runOpsF_noFaults", "Jf.FInv.runOpsF", "Jm.api_generated", "Jm.jobApi_documented", "Jm.every_control_is_modelled", "Jm.every_model_control_exists", "Jm.priorities_are_the_models", "Jm.command_states_are_the_models"], bins=[("lib", ["wxjob"])], streams=streams,
+        return [s] + ([jobmt_stream(pid, ctx)] if pid in ("C04", "C07", "C10") else [])
+    return dict(translate=True, modules=modules + ["Wx.Job.Api", "Wx.Job.ApiThm", "Wx.Job.ShapesThm", "Wx.Job.Faults", "Wx.Job.FaultsThm"], theorems=theorems + ["Jf.runOpsF_noFaults", "Jf.FInv.runOpsF", "Jm.api_generated", "Jm.jobApi_documented", "Jm.every_control_is_modelled", "Jm.every_model_control_exists", "Jm.priorities_are_the_models", "Jm.command_states_are_the_models"], bins=[("lib", ["wxjob"] + (["wxjobmt"] if pid in ("C04", "C07", "C10") else []))], streams=streams,
                 sources=["crates/supervisor/src/job/task.rs", "crates/supervisor/src/job/priority.rs", "crates/supervisor/src/job/state.rs", "crates/supervisor/src/job/job.rs",
                          "crates/supervisor/src/job/messages.rs", "crates/supervisor/src/flag.rs"],
                 rule="a case is one script (behaviour list + operation list); non-trivial = at least one child is spawned; distinct by (script body, implementation trace). " + rule_extra,
